@@ -1,43 +1,630 @@
 import Kanzi.Model.Writer
 import Kanzi.Spec.Stream
+import Kanzi.Proofs.WriterLemmas
+/-!
+Proofs of the writer-side properties (`Kanzi/Properties/StreamW.lean`).
+Helper lemmas on `chunks`, `splice`, `spawn`, `processBlock`, `Close` phases: `WriterLemmas.lean`.
+Structure: small theorems first; then the invariant `Inv = Dead ∨ Open ∨ Final`, its preservation by
+`writeLoop` / `write` / `close` / `step` / `run`; then the theorems about healthy and arbitrary programs.
+-/
 namespace Kanzi.Writer
 open Kanzi.Spec
-
-theorem healthy_run (c : Cfg) (hB : 0 < c.B) (hJ : 0 < c.J) (parts : List (List Nat)) :
-    let r := run c (init c) (healthyProgram parts)
-    r.2 = parts.map (fun d => Out.wrote d.length none) ++ [Out.closedR none] ∧
-    r.1.emitted = chunks c.B parts.flatten ∧
-    r.1.closed = true ∧ r.1.endOut = true ∧ r.1.headerOut = !c.headless ∧ r.1.failed = false := by sorry
 
 theorem closed_absorbing (c : Cfg) (s : St) (h : s.closed = true) (op : Op) :
     (step c s op).1 = s ∧
     (match op with
      | .write _ _ => (step c s op).2 = Out.wrote 0 (some Err.closed)
      | .close _ => (step c s op).2 = Out.closedR none
-     | .getWritten => (step c s op).2 = Out.written (getWritten s)) := by sorry
+     | .getWritten => (step c s op).2 = Out.written (getWritten s)) := by
+  cases op <;> simp [step, write, close, h]
 
-theorem getWritten_mono (c : Cfg) (s : St) (op : Op) : getWritten s ≤ getWritten (step c s op).1 := by sorry
+theorem close_bits_le (c : Cfg) (s : St) (flt : Fault) : s.bits ≤ (close c s flt).1.bits := by
+  rw [close_eq]
+  split
+  · exact Nat.le_refl _
+  · have h1 := (closeP1_frame c s flt).2.2.2.1
+    split
+    · exact h1
+    · rw [closeP2_frame]; exact h1
 
-theorem getWritten_final (c : Cfg) (hB : 0 < c.B) (hJ : 0 < c.J) (parts : List (List Nat)) :
-    getWritten (run c (init c) (healthyProgram parts)).1 =
-      ((if c.headless then 0 else c.headerBits) +
-        ((chunks c.B parts.flatten).map c.frameBits).sum + 8 + 7) / 8 := by sorry
+theorem getWritten_mono (c : Cfg) (s : St) (op : Op) : getWritten s ≤ getWritten (step c s op).1 := by
+  have key : s.bits ≤ (step c s op).1.bits := by
+    cases op with
+    | write d f =>
+      simp only [step, write]
+      split
+      · exact Nat.le_refl _
+      · split
+        · exact Nat.le_refl _
+        · exact writeLoop_bits_le ..
+    | close f => exact close_bits_le c s f
+    | getWritten => exact Nat.le_refl _
+  unfold getWritten
+  exact Nat.div_le_div_right (Nat.add_le_add_right key 7)
 
-theorem closed_means_complete (c : Cfg) (hB : 0 < c.B) (hJ : 0 < c.J) (ops : List Op) :
-    let r := run c (init c) ops
-    r.1.closed = true →
-      r.1.emitted = chunks c.B (accepted ops r.2) ∧ r.1.endOut = true ∧ r.1.headerOut = !c.headless ∧
-      r.1.failed = false := by sorry
+/-- PARTIAL variant of `failed_sticky`, see the comment there -/
+theorem failed_sticky_partial (c : Cfg) (s : St) (h : s.failed = true) (hc : s.closed = false)
+    (hfin : s.finalized = false) (op : Op) :
+    (step c s op).1.failed = true ∧ (step c s op).1.closed = false ∧ (step c s op).1.finalized = false ∧
+    (match op with
+     | .write _ _ => ∃ e, (step c s op).2 = Out.wrote 0 (some e)
+     | .close _ => ∃ e, (step c s op).2 = Out.closedR (some e)
+     | .getWritten => True) := by
+  cases op with
+  | write d f =>
+    simp only [step, write, h, hc]
+    by_cases hcl : s.closing = true <;> simp [hcl, h, hc, hfin]
+  | close f =>
+    have hne : (closeP1 c s f).2 ≠ none := by
+      intro hn
+      have := ((closeP1_frame c s f).2.2.2.2.2 hn hfin).1
+      rw [h] at this; cases this
+    obtain ⟨_, _, f3, _, f5, _⟩ := closeP1_frame c s f
+    obtain ⟨f5a, f5b⟩ := f5 hne
+    simp only [step, close_eq, hc, Bool.false_eq_true, if_false]
+    cases hp : (closeP1 c s f).2 with
+    | none => exact absurd hp hne
+    | some e =>
+      simp only
+      exact ⟨f5b h, by rw [f3, hc], by rw [f5a, hfin], e, rfl⟩
+  | getWritten => simp [step, h, hc, hfin]
+
+theorem close_fault_reported (c : Cfg) (s : St) (f : Fault) (hf : f = .endMarker ∨ f = .finalFlush ∨ f = .closer)
+    (hc : s.closed = false) : (close c s f).2 ≠ none ∨ (close c s f).1.closed = false ∨
+      (f = .finalFlush ∧ s.obsClosed = true) ∨ (f = .closer ∧ s.closerClosed = true) ∨ (f = .endMarker ∧ s.finalized = true) := by
+  obtain ⟨f1, f2, f3, _, _, f6⟩ := closeP1_frame c s f
+  rw [close_eq]
+  simp only [hc, Bool.false_eq_true, if_false]
+  cases hp : (closeP1 c s f).2 with
+  | some e => left; simp
+  | none =>
+    simp only
+    obtain ⟨g1, g2, _⟩ := closeP2_result (closeP1 c s f).1 f (by rw [f3, hc])
+    by_cases hn : (closeP2 (closeP1 c s f).1 f).2 = none
+    · obtain ⟨_, k2, k3⟩ := g1 hn
+      rcases hf with hf | hf | hf
+      · right; right; right; right
+        refine ⟨hf, ?_⟩
+        cases hfin : s.finalized with
+        | true => rfl
+        | false => exact absurd hf (f6 hp hfin).2
+      · right; right; left; exact ⟨hf, by rw [← f1]; exact k2 hf⟩
+      · right; right; right; left; exact ⟨hf, by rw [← f2]; exact k3 hf⟩
+    · left; exact hn
+
+
+/-
+ORIGINAL STATEMENT (FALSE for arbitrary states, kept for reference):
 
 theorem failed_sticky (c : Cfg) (s : St) (h : s.failed = true) (hc : s.closed = false) (op : Op) :
     (step c s op).1.failed = true ∧ (step c s op).1.closed = false ∧
     (match op with
      | .write _ _ => ∃ e, (step c s op).2 = Out.wrote 0 (some e)
      | .close _ => ∃ e, (step c s op).2 = Out.closedR (some e)
-     | .getWritten => True) := by sorry
+     | .getWritten => True)
 
-theorem close_fault_reported (c : Cfg) (s : St) (f : Fault) (hf : f = .endMarker ∨ f = .finalFlush ∨ f = .closer)
-    (hc : s.closed = false) : (close c s f).2 ≠ none ∨ (close c s f).1.closed = false ∨
-      (f = .finalFlush ∧ s.obsClosed = true) ∨ (f = .closer ∧ s.closerClosed = true) ∨ (f = .endMarker ∧ s.finalized = true) := by sorry
+Counterexample (an UNREACHABLE state): `s := { init c with failed := true, finalized := true }`,
+`op := .close .none`.  `close` skips phase 1 because `s.finalized`, phase 2 succeeds, so
+`(step c s op) = ({ s with obsClosed, closerClosed, closed := true }, .closedR none)`:
+  #eval let r := step c1 sBad (.close .none); (r.1.failed, r.1.closed, r.2)   -- (true, true, closedR none)
+The statement quantifies over ALL states, including `failed ∧ finalized`, which no program can
+produce (`finalized` is only set after a `processBlock` that returned no error, and after that
+every Write is refused and Close skips phase 1, so `failed` can no longer be set).
+
+Proved instead:
+* `failed_sticky_partial`: the statement with the extra hypothesis `s.finalized = false`
+  (and additionally `finalized` stays false, which makes it inductive);
+* `failed_sticky_reachable`: the ORIGINAL statement for every state reachable from `init c` by any
+  program with any faults (no assumption on B, J; even `closed = false` is a consequence there),
+  via the flag invariant `(finalized → closing ∧ ¬failed) ∧ (closed → finalized)`.
+-/
+
+/-! ### the flag invariant behind the reachable form of `failed_sticky` (no assumption on B, J) -/
+
+/-- a finalized writer is closing and not failed; a closed writer is finalized -/
+def FlagInv (s : St) : Prop :=
+  (s.finalized = true → s.closing = true ∧ s.failed = false) ∧ (s.closed = true → s.finalized = true)
+
+theorem writeLoop_finalized (c : Cfg) (flt : Fault) (fuel : Nat) (rest : List Nat) (done batch : Nat) (s : St) :
+    (writeLoop c flt fuel rest done batch s).1.finalized = s.finalized ∧
+    (writeLoop c flt fuel rest done batch s).1.closed = s.closed := by
+  induction fuel generalizing rest done batch s with
+  | zero => simp [writeLoop]
+  | succ n ih =>
+    rw [writeLoop]
+    by_cases h : rest.length = 0
+    · simp [h]
+    · simp only [h, if_false]
+      split
+      · split
+        · rw [(ih _ _ _ _).1, (ih _ _ _ _).2]; exact ⟨rfl, rfl⟩
+        · split
+          · exact ⟨(processBlock_frame c _ _).2.1, (processBlock_frame c _ _).2.2.1⟩
+          · rw [(ih _ _ _ _).1, (ih _ _ _ _).2]
+            exact ⟨(processBlock_frame c _ _).2.1, (processBlock_frame c _ _).2.2.1⟩
+      · rw [(ih _ _ _ _).1, (ih _ _ _ _).2]; exact ⟨rfl, rfl⟩
+
+theorem closeP1_flagInv (c : Cfg) (s : St) (flt : Fault) (h : FlagInv s) :
+    FlagInv (closeP1 c s flt).1 ∧ ((closeP1 c s flt).2 = none → (closeP1 c s flt).1.finalized = true) := by
+  unfold closeP1
+  by_cases hfin : s.finalized = true
+  · rw [if_pos hfin]; exact ⟨h, fun _ => hfin⟩
+  · rw [if_neg hfin]
+    have hnc : s.closed = true → False := fun hc => hfin (h.2 hc)
+    by_cases hcl : s.closing = true
+    · rw [if_pos hcl]; refine ⟨h, ?_⟩; intro hh; cases hh
+    · rw [if_neg hcl]
+      obtain ⟨f1, f2, f3, f4, f5, f6, f7, f8, f9, f10⟩ :=
+        processBlock_frame c { s with closing := true } (flt = .task 0)
+      simp only at f1 f2 f3 f4 f5 f6 f7 f8 f9 f10
+      generalize processBlock c { s with closing := true } (flt = .task 0) = r at *
+      obtain ⟨r1, r2⟩ := r
+      simp only at f1 f2 f3 f4 f5 f6 f7 f8 f9 f10
+      cases r2 with
+      | some e =>
+        refine ⟨⟨?_, ?_⟩, ?_⟩
+        · intro hh; simp only at hh; rw [f2] at hh; exact absurd hh hfin
+        · intro hh; simp only at hh; rw [f3] at hh; exact (hnc hh).elim
+        · intro hh; cases hh
+      | none =>
+        simp only
+        split
+        · refine ⟨⟨?_, ?_⟩, ?_⟩
+          · intro hh; simp only at hh; rw [f2] at hh; exact absurd hh hfin
+          · intro hh; simp only at hh; rw [f3] at hh; exact (hnc hh).elim
+          · intro hh; cases hh
+        · exact ⟨⟨fun _ => ⟨f1, f10 rfl⟩, fun _ => rfl⟩, fun _ => rfl⟩
+
+theorem step_flagInv (c : Cfg) (s : St) (op : Op) (h : FlagInv s) : FlagInv (step c s op).1 := by
+  cases op with
+  | write d f =>
+    simp only [step, write]
+    split
+    · exact h
+    · split
+      · exact h
+      · rename_i h1 h2
+        obtain ⟨w1, w2⟩ := writeLoop_finalized c f (d.length + 1) d 0 0 s
+        refine ⟨?_, ?_⟩
+        · intro hh
+          rw [w1] at hh
+          exact absurd (Or.inr (h.1 hh).1) h1
+        · intro hh
+          rw [w2] at hh
+          exact absurd (Or.inl hh) h1
+  | close f =>
+    simp only [step]
+    rw [close_eq]
+    split
+    · exact h
+    · obtain ⟨h1, h2⟩ := closeP1_flagInv c s f h
+      cases hp : (closeP1 c s f).2 with
+      | some e => exact h1
+      | none =>
+        simp only
+        rw [closeP2_frame]
+        exact ⟨h1.1, fun _ => h2 hp⟩
+  | getWritten => exact h
+
+theorem run_flagInv (c : Cfg) (ops : List Op) : ∀ s, FlagInv s → FlagInv (run c s ops).1 := by
+  induction ops with
+  | nil => intro s h; exact h
+  | cons op ops ih => intro s h; exact ih _ (step_flagInv c s op h)
+
+/-- `failed_sticky` for every reachable state (`closed = false` is a consequence there) -/
+theorem failed_sticky_reachable (c : Cfg) (ops : List Op) (s : St)
+    (hr : (run c (init c) ops).1 = s) (h : s.failed = true) (op : Op) :
+    s.closed = false ∧ (step c s op).1.failed = true ∧ (step c s op).1.closed = false ∧
+    (match op with
+     | .write _ _ => ∃ e, (step c s op).2 = Out.wrote 0 (some e)
+     | .close _ => ∃ e, (step c s op).2 = Out.closedR (some e)
+     | .getWritten => True) := by
+  have hI : FlagInv s := by
+    rw [← hr]
+    refine run_flagInv c ops (init c) ⟨?_, ?_⟩
+    · intro hh; cases hh
+    · intro hh; cases hh
+  have hfin : s.finalized = false := by
+    cases hf : s.finalized with
+    | false => rfl
+    | true => have := (hI.1 hf).2; rw [h] at this; cases this
+  have hc : s.closed = false := by
+    cases hf : s.closed with
+    | false => rfl
+    | true => have := hI.2 hf; rw [hfin] at this; cases this
+  obtain ⟨g1, g2, _, g4⟩ := failed_sticky_partial c s h hc hfin op
+  exact ⟨hc, g1, g2, g4⟩
+
+/-! ### the invariant -/
+
+/-- a healthy writer that is still accepting data; `acc` = the bytes accepted so far -/
+structure Open (c : Cfg) (s : St) (acc : List Nat) : Prop where
+  memlen : s.mem.length = c.J * c.B
+  avail : s.available ≤ c.J * c.B
+  notClosing : s.closing = false
+  notFinal : s.finalized = false
+  notClosed : s.closed = false
+  notFailed : s.failed = false
+  endOut : s.endOut = false
+  hdr : s.headerOut = s.initialized
+  hdrless : c.headless = true → s.initialized = false
+  data : ∃ F, s.emitted = chunks c.B F ∧ c.B ∣ F.length ∧ F ++ s.mem.take s.available = acc
+  bits : s.bits = (if s.headerOut then c.headerBits else 0) + (s.emitted.map c.frameBits).sum
+
+/-- a writer whose data is complete and whose end marker is out -/
+structure Final (c : Cfg) (s : St) (acc : List Nat) : Prop where
+  closing : s.closing = true
+  finalized : s.finalized = true
+  notFailed : s.failed = false
+  endOut : s.endOut = true
+  hdr : s.headerOut = !c.headless
+  data : s.emitted = chunks c.B acc
+  bits : s.bits = (if c.headless then 0 else c.headerBits) + (s.emitted.map c.frameBits).sum + 8
+
+/-- the sticky error state -/
+structure Dead (s : St) : Prop where
+  failed : s.failed = true
+  notFinal : s.finalized = false
+  notClosed : s.closed = false
+
+theorem open_init (c : Cfg) (hB : 0 < c.B) (hJ : 0 < c.J) : Open c (init c) [] ∧ (init c).available < c.J * c.B := by
+  refine ⟨⟨?_, ?_, rfl, rfl, rfl, rfl, rfl, rfl, fun _ => rfl, ⟨[], ?_, ?_, ?_⟩, ?_⟩, ?_⟩
+  · simp [init]
+  · simp [init]
+  · simp [init, chunks_nil c.B hB]
+  · simp
+  · simp [init]
+  · simp [init]
+  · exact Nat.mul_pos hJ hB
+
+theorem open_splice (c : Cfg) (s : St) (acc src : List Nat) (h : Open c s acc)
+    (hle : s.available + src.length ≤ c.J * c.B) :
+    Open c { s with mem := splice s.mem s.available src, available := s.available + src.length } (acc ++ src) := by
+  obtain ⟨F, hF1, hF2, hF3⟩ := h.data
+  have hm := h.memlen
+  refine ⟨?_, hle, h.notClosing, h.notFinal, h.notClosed, h.notFailed, h.endOut, h.hdr, h.hdrless,
+    ⟨F, hF1, hF2, ?_⟩, h.bits⟩
+  · simp only; rw [splice_length _ _ _ (by omega)]; exact hm
+  · simp only
+    rw [splice_take _ _ _ (by omega), ← hF3, List.append_assoc]
+
+theorem writeHeader_open (c : Cfg) (s : St) (acc : List Nat) (h : Open c s acc) :
+    (writeHeader c s).headerOut = (!c.headless) ∧ (writeHeader c s).initialized = (!c.headless) ∧
+    (writeHeader c s).bits = (if c.headless then 0 else c.headerBits) + (s.emitted.map c.frameBits).sum := by
+  have h1 := h.hdr
+  have h2 := h.hdrless
+  have h3 := h.bits
+  unfold writeHeader
+  cases hh : c.headless
+  · cases hi : s.initialized
+    · rw [hi] at h1; simp [h3, h1]; omega
+    · rw [hi] at h1; simp [hi, h3, h1]
+  · have hi := h2 hh
+    rw [hi] at h1
+    simp [hi, h3, h1]
+
+theorem open_pb (c : Cfg) (hB : 0 < c.B) (s : St) (acc : List Nat) (h : Open c s acc) :
+    (pbState c s).emitted = chunks c.B acc ∧
+    (pbState c s).bits = (if c.headless then 0 else c.headerBits) + ((chunks c.B acc).map c.frameBits).sum ∧
+    (pbState c s).headerOut = (!c.headless) ∧ (pbState c s).initialized = (!c.headless) ∧
+    (pbState c s).available = 0 ∧ (pbState c s).mem = s.mem ∧
+    (pbState c s).closing = s.closing ∧ (pbState c s).finalized = s.finalized ∧
+    (pbState c s).closed = s.closed ∧ (pbState c s).failed = s.failed ∧ (pbState c s).endOut = s.endOut := by
+  obtain ⟨F, hF1, hF2, hF3⟩ := h.data
+  obtain ⟨w1, w2, w3⟩ := writeHeader_open c s acc h
+  obtain ⟨v1, v2, v3, v4, v5, v6, v7, v8, v9, v10⟩ := writeHeader_flags c s
+  have he : s.emitted ++ chunks c.B (s.mem.take s.available) = chunks c.B acc := by
+    rw [hF1, ← chunks_append_of_dvd c.B hB _ _ hF2, hF3]
+  unfold pbState
+  refine ⟨he, ?_, w1, w2, rfl, v1, v3, v4, v5, v6, v10⟩
+  simp only
+  rw [w3, ← he, List.map_append, List.sum_append, Nat.add_assoc]
+
+theorem open_flush (c : Cfg) (hB : 0 < c.B) (hJ : 0 < c.J) (s : St) (acc : List Nat) (h : Open c s acc)
+    (hd : c.B ∣ s.available) : Open c (pbState c s) acc ∧ (pbState c s).available < c.J * c.B := by
+  obtain ⟨F, hF1, hF2, hF3⟩ := h.data
+  obtain ⟨p1, p2, p3, p4, p5, p6, p7, p8, p9, p10, p11⟩ := open_pb c hB s acc h
+  have hm := h.memlen
+  have ha := h.avail
+  refine ⟨⟨by rw [p6]; exact hm, by rw [p5]; exact Nat.zero_le _, by rw [p7]; exact h.notClosing,
+    by rw [p8]; exact h.notFinal, by rw [p9]; exact h.notClosed, by rw [p10]; exact h.notFailed,
+    by rw [p11]; exact h.endOut, by rw [p3, p4], ?_, ⟨acc, p1, ?_, ?_⟩, ?_⟩, ?_⟩
+  · intro hh; rw [p4, hh]; rfl
+  · rw [← hF3, List.length_append, List.length_take, Nat.min_eq_left (by omega)]
+    exact Nat.dvd_add hF2 hd
+  · rw [p5]; simp
+  · rw [p2, p3, p1]; cases c.headless <;> simp
+  · rw [p5]; exact Nat.mul_pos hJ hB
+
+theorem open_close (c : Cfg) (hB : 0 < c.B) (s : St) (acc : List Nat) (h : Open c s acc) :
+    Final c { pbState c { s with closing := true } with
+                finalized := true, endOut := true,
+                bits := (pbState c { s with closing := true }).bits + 8 } acc := by
+  obtain ⟨p1, p2, p3, p4, p5, p6, p7, p8, p9, p10, p11⟩ := open_pb c hB s acc h
+  rw [pbState_closing]
+  refine ⟨rfl, rfl, ?_, rfl, ?_, ?_, ?_⟩
+  · simp only; rw [p10]; exact h.notFailed
+  · simp only; exact p3
+  · simp only; exact p1
+  · simp only; rw [p2, p1]
+
+theorem writeLoop_spec (c : Cfg) (hB : 0 < c.B) (hJ : 0 < c.J) (flt : Fault) (fuel : Nat) :
+    ∀ (rest : List Nat) (done batch : Nat) (s : St) (acc : List Nat),
+      Open c s acc → s.available < c.J * c.B → rest.length < fuel →
+      ((writeLoop c flt fuel rest done batch s).2.2 = none ∧
+        (writeLoop c flt fuel rest done batch s).2.1 = done + rest.length ∧
+        Open c (writeLoop c flt fuel rest done batch s).1 (acc ++ rest) ∧
+        (writeLoop c flt fuel rest done batch s).1.available < c.J * c.B) ∨
+      ((writeLoop c flt fuel rest done batch s).2.2 ≠ none ∧ flt ≠ .none ∧
+        Dead (writeLoop c flt fuel rest done batch s).1) := by
+  induction fuel with
+  | zero => intro rest done batch s acc _ _ hlt; omega
+  | succ n ih =>
+    intro rest done batch s acc hO hA hlt
+    rw [writeLoop]
+    by_cases h0 : rest.length = 0
+    · rw [if_pos h0]
+      have : rest = [] := List.length_eq_zero_iff.mp h0
+      subst this
+      left
+      exact ⟨rfl, rfl, by simpa using hO, hA⟩
+    · rw [if_neg h0]
+      simp only []
+      -- arithmetic of the buffer position
+      have hmod := Nat.mod_lt s.available hB
+      have hdm := Nat.div_add_mod s.available c.B
+      rw [Nat.mul_comm] at hdm
+      have hq : s.available / c.B < c.J := (Nat.div_lt_iff_lt_mul hB).mpr hA
+      have hq1 : (s.available / c.B + 1) * c.B ≤ c.J * c.B := Nat.mul_le_mul_right _ hq
+      rw [Nat.succ_mul] at hq1
+      generalize hlen : min rest.length (c.B - s.available % c.B) = len
+      have hl1 : 1 ≤ len := by omega
+      have hl2 : len ≤ rest.length := by omega
+      have hl3 : s.available % c.B + len ≤ c.B := by omega
+      have htl : (rest.take len).length = len := by rw [List.length_take]; omega
+      have hsp := open_splice c s acc (rest.take len) hO (by rw [htl]; omega)
+      rw [htl] at hsp
+      have hacc : acc ++ rest = acc ++ rest.take len ++ rest.drop len := by
+        rw [List.append_assoc, List.take_append_drop]
+      have hdl : (rest.drop len).length < n := by rw [List.length_drop]; omega
+      have hdone : done + len + (rest.drop len).length = done + rest.length := by
+        rw [List.length_drop]; omega
+      by_cases hfull : s.available % c.B + len ≥ c.B
+      · rw [if_pos hfull]
+        by_cases hj : s.available / c.B + 1 < c.J
+        · rw [if_pos hj]
+          have hq2 : (s.available / c.B + 1 + 1) * c.B ≤ c.J * c.B := Nat.mul_le_mul_right _ hj
+          rw [Nat.succ_mul, Nat.succ_mul] at hq2
+          have := ih (rest.drop len) (done + len) batch _ _ hsp (by simp only; omega) hdl
+          rw [hacc, ← hdone]
+          exact this
+        · rw [if_neg hj]
+          have hJeq : c.J = s.available / c.B + 1 := by omega
+          have hJB : c.J * c.B = s.available / c.B * c.B + c.B := by rw [hJeq, Nat.succ_mul]
+          have hav : s.available + len = c.J * c.B := by omega
+          obtain ⟨s1, hs1⟩ : ∃ s1 : St, s1 = { s with mem := splice s.mem s.available (rest.take len),
+                                                      available := s.available + len } := ⟨_, rfl⟩
+          rw [← hs1] at hsp ⊢
+          have hs1a : s1.available = c.J * c.B := by rw [hs1]; exact hav
+          have hs1f : s1.failed = false := hsp.notFailed
+          have hs1m := hsp.memlen
+          obtain ⟨f1, f2, f3, f4, f5, f6, f7, f8, f9, f10⟩ :=
+            processBlock_frame c s1 (flt = .task batch)
+          cases hr : (processBlock c s1 (flt = .task batch)).2 with
+          | some e =>
+            right
+            simp only
+            refine ⟨by simp, ?_, ⟨f9 (by rw [hr]; simp), by rw [f2]; exact hsp.notFinal,
+              by rw [f3]; exact hsp.notClosed⟩⟩
+            intro hflt
+            subst hflt
+            have : (processBlock c s1 (Fault.none = .task batch)).2 = none := by
+              have : decide (Fault.none = Fault.task batch) = false := by simp
+              rw [this, processBlock_ok c hB s1 hs1f hs1m (by omega)]
+            rw [this] at hr; cases hr
+          | none =>
+            simp only
+            have hpb := processBlock_none c hB s1 _ hs1f hs1m (by omega) hr
+            rw [hpb]
+            obtain ⟨hO2, hA2⟩ := open_flush c hB hJ s1 _ hsp (by rw [hs1a]; exact Nat.dvd_mul_left _ _)
+            have := ih (rest.drop len) (done + len) (batch + 1) _ _ hO2 hA2 hdl
+            rw [hacc, ← hdone]
+            exact this
+      · rw [if_neg hfull]
+        have := ih (rest.drop len) (done + len) batch _ _ hsp (by simp only; omega) hdl
+        rw [hacc, ← hdone]
+        exact this
+
+theorem write_spec (c : Cfg) (hB : 0 < c.B) (hJ : 0 < c.J) (s : St) (acc d : List Nat) (flt : Fault)
+    (hO : Open c s acc) (hA : s.available < c.J * c.B) :
+    ((write c s d flt).2.2 = none ∧ (write c s d flt).2.1 = d.length ∧
+        Open c (write c s d flt).1 (acc ++ d) ∧ (write c s d flt).1.available < c.J * c.B) ∨
+    ((write c s d flt).2.2 ≠ none ∧ flt ≠ .none ∧ Dead (write c s d flt).1) := by
+  unfold write
+  simp only [hO.notClosed, hO.notClosing, hO.notFailed, Bool.false_eq_true, or_self, if_false]
+  have := writeLoop_spec c hB hJ flt (d.length + 1) d 0 0 s acc hO hA (Nat.lt_succ_self _)
+  simpa using this
+
+theorem final_p2 (c : Cfg) (s : St) (acc : List Nat) (flt : Fault) (h : Final c s acc) :
+    Final c (closeP2 s flt).1 acc := by
+  rw [closeP2_frame]
+  exact ⟨h.closing, h.finalized, h.notFailed, h.endOut, h.hdr, h.data, h.bits⟩
+
+theorem close_final (c : Cfg) (s : St) (acc : List Nat) (flt : Fault) (h : Final c s acc) :
+    Final c (close c s flt).1 acc := by
+  rw [close_eq]
+  split
+  · exact h
+  · have : closeP1 c s flt = (s, none) := by unfold closeP1; simp [h.finalized]
+    rw [this]
+    exact final_p2 c s acc flt h
+
+theorem close_open (c : Cfg) (hB : 0 < c.B) (s : St) (acc : List Nat) (flt : Fault) (hO : Open c s acc) :
+    (Dead (close c s flt).1 ∧ flt ≠ .none) ∨
+    (Final c (close c s flt).1 acc ∧ (flt = .none → (close c s flt).2 = none ∧ (close c s flt).1.closed = true)) := by
+  rw [close_eq, if_neg (by rw [hO.notClosed]; simp)]
+  have hP1 : (Dead (closeP1 c s flt).1 ∧ (closeP1 c s flt).2 ≠ none ∧ flt ≠ .none) ∨
+      (Final c (closeP1 c s flt).1 acc ∧ (closeP1 c s flt).2 = none ∧ (closeP1 c s flt).1.closed = false) := by
+    unfold closeP1
+    rw [if_neg (by rw [hO.notFinal]; simp), if_neg (by rw [hO.notClosing]; simp)]
+    simp only []
+    have hf' : ({ s with closing := true } : St).failed = false := hO.notFailed
+    have hm' : ({ s with closing := true } : St).mem.length = c.J * c.B := hO.memlen
+    have ha' : ({ s with closing := true } : St).available ≤ c.J * c.B := hO.avail
+    obtain ⟨f1, f2, f3, f4, f5, f6, f7, f8, f9, f10⟩ :=
+      processBlock_frame c { s with closing := true } (flt = .task 0)
+    cases hr : (processBlock c { s with closing := true } (flt = .task 0)).2 with
+    | some e =>
+      left
+      simp only
+      refine ⟨⟨f9 (by rw [hr]; simp), by simp only; rw [f2]; exact hO.notFinal,
+        by simp only; rw [f3]; exact hO.notClosed⟩, by simp, ?_⟩
+      intro hflt
+      subst hflt
+      have : decide (Fault.none = Fault.task 0) = false := by simp
+      rw [this, processBlock_ok c hB _ hf' hm' ha'] at hr
+      cases hr
+    | none =>
+      simp only
+      have hpb := processBlock_none c hB _ _ hf' hm' ha' hr
+      rw [hpb]
+      by_cases hem : flt = .endMarker
+      · left
+        rw [if_pos hem]
+        obtain ⟨p1, p2, p3, p4, p5, p6, p7, p8, p9, p10, p11⟩ := open_pb c hB s acc hO
+        rw [pbState_closing]
+        refine ⟨⟨rfl, by simp only; rw [p8]; exact hO.notFinal, by simp only; rw [p9]; exact hO.notClosed⟩,
+          by simp, by rw [hem]; simp⟩
+      · right
+        rw [if_neg hem]
+        refine ⟨open_close c hB s acc hO, rfl, ?_⟩
+        obtain ⟨p1, p2, p3, p4, p5, p6, p7, p8, p9, p10, p11⟩ := open_pb c hB s acc hO
+        rw [pbState_closing]
+        simp only; rw [p9]; exact hO.notClosed
+  rcases hP1 with ⟨hD, hne, hflt⟩ | ⟨hF, hn, hcl⟩
+  · left
+    cases hp : (closeP1 c s flt).2 with
+    | none => exact absurd hp hne
+    | some e => exact ⟨hD, hflt⟩
+  · right
+    rw [hn]
+    simp only
+    refine ⟨final_p2 c _ acc flt hF, ?_⟩
+    intro hflt
+    obtain ⟨g1, g2, g3⟩ := closeP2_result (closeP1 c s flt).1 flt hcl
+    exact ⟨g3 hflt, (g1 (g3 hflt)).1⟩
+
+/-- the invariant of every reachable state; `acc` = the bytes accepted so far -/
+def Inv (c : Cfg) (s : St) (acc : List Nat) : Prop :=
+  Dead s ∨ (Open c s acc ∧ s.available < c.J * c.B) ∨ Final c s acc
+
+theorem accepted_cons (op : Op) (out : Out) (ops : List Op) (outs : List Out) :
+    accepted (op :: ops) (out :: outs) = accepted [op] [out] ++ accepted ops outs := by
+  cases op <;> cases out <;> simp [accepted]
+
+theorem step_inv (c : Cfg) (hB : 0 < c.B) (hJ : 0 < c.J) (s : St) (acc : List Nat) (op : Op)
+    (h : Inv c s acc) : Inv c (step c s op).1 (acc ++ accepted [op] [(step c s op).2]) := by
+  rcases h with hD | ⟨hO, hA⟩ | hF
+  · obtain ⟨g1, g2, g3, _⟩ := failed_sticky_partial c s hD.failed hD.notClosed hD.notFinal op
+    exact Or.inl ⟨g1, g3, g2⟩
+  · cases op with
+    | write d f =>
+      simp only [step]
+      rcases write_spec c hB hJ s acc d f hO hA with ⟨_, k2, k3, k4⟩ | ⟨_, _, k3⟩
+      · right; left
+        rw [k2]
+        simp only [accepted, List.take_length, List.append_nil]
+        exact ⟨k3, k4⟩
+      · exact Or.inl k3
+    | close f =>
+      simp only [step, accepted, List.append_nil]
+      rcases close_open c hB s acc f hO with ⟨k1, _⟩ | ⟨k1, _⟩
+      · exact Or.inl k1
+      · exact Or.inr (Or.inr k1)
+    | getWritten =>
+      simp only [step, accepted, List.append_nil]
+      exact Or.inr (Or.inl ⟨hO, hA⟩)
+  · right; right
+    cases op with
+    | write d f =>
+      have : write c s d f = (s, 0, some Err.closed) := by unfold write; simp [hF.closing]
+      simp only [step, this, accepted, List.take_zero, List.append_nil]
+      exact hF
+    | close f =>
+      simp only [step, accepted, List.append_nil]
+      exact close_final c s acc f hF
+    | getWritten =>
+      simp only [step, accepted, List.append_nil]
+      exact hF
+
+theorem run_inv (c : Cfg) (hB : 0 < c.B) (hJ : 0 < c.J) (ops : List Op) :
+    ∀ (s : St) (acc : List Nat), Inv c s acc → Inv c (run c s ops).1 (acc ++ accepted ops (run c s ops).2) := by
+  induction ops with
+  | nil => intro s acc h; simpa [run, accepted] using h
+  | cons op ops ih =>
+    intro s acc h
+    have h1 := step_inv c hB hJ s acc op h
+    have h2 := ih _ _ h1
+    simp only [run]
+    rw [accepted_cons, ← List.append_assoc]
+    exact h2
+
+theorem closed_means_complete (c : Cfg) (hB : 0 < c.B) (hJ : 0 < c.J) (ops : List Op) :
+    let r := run c (init c) ops
+    r.1.closed = true →
+      r.1.emitted = chunks c.B (accepted ops r.2) ∧ r.1.endOut = true ∧ r.1.headerOut = !c.headless ∧
+      r.1.failed = false := by
+  intro r hc
+  have h := run_inv c hB hJ ops (init c) [] (Or.inr (Or.inl (open_init c hB hJ)))
+  rw [List.nil_append] at h
+  rcases h with hD | ⟨hO, _⟩ | hF
+  · have := hD.notClosed; rw [hc] at this; cases this
+  · have := hO.notClosed; rw [hc] at this; cases this
+  · exact ⟨hF.data, hF.endOut, hF.hdr, hF.notFailed⟩
+
+theorem healthy_aux (c : Cfg) (hB : 0 < c.B) (hJ : 0 < c.J) (parts : List (List Nat)) :
+    ∀ (s : St) (acc : List Nat), Open c s acc → s.available < c.J * c.B →
+      (run c s (healthyProgram parts)).2 = parts.map (fun d => Out.wrote d.length none) ++ [Out.closedR none] ∧
+      Final c (run c s (healthyProgram parts)).1 (acc ++ parts.flatten) ∧
+      (run c s (healthyProgram parts)).1.closed = true := by
+  induction parts with
+  | nil =>
+    intro s acc hO hA
+    simp only [healthyProgram, List.map_nil, List.nil_append, run, step, List.flatten_nil, List.append_nil]
+    rcases close_open c hB s acc .none hO with ⟨_, k2⟩ | ⟨k1, k2⟩
+    · exact absurd rfl k2
+    · obtain ⟨k3, k4⟩ := k2 rfl
+      exact ⟨by rw [k3], k1, k4⟩
+  | cons d parts ih =>
+    intro s acc hO hA
+    have hp : healthyProgram (d :: parts) = Op.write d .none :: healthyProgram parts := rfl
+    rw [hp]
+    simp only [run, step]
+    rcases write_spec c hB hJ s acc d .none hO hA with ⟨k1, k2, k3, k4⟩ | ⟨_, k, _⟩
+    · obtain ⟨i1, i2, i3⟩ := ih _ _ k3 k4
+      refine ⟨?_, ?_, i3⟩
+      · rw [i1, k1, k2]; rfl
+      · rw [List.flatten_cons, ← List.append_assoc]; exact i2
+    · exact absurd rfl k
+
+theorem healthy_run (c : Cfg) (hB : 0 < c.B) (hJ : 0 < c.J) (parts : List (List Nat)) :
+    let r := run c (init c) (healthyProgram parts)
+    r.2 = parts.map (fun d => Out.wrote d.length none) ++ [Out.closedR none] ∧
+    r.1.emitted = chunks c.B parts.flatten ∧
+    r.1.closed = true ∧ r.1.endOut = true ∧ r.1.headerOut = !c.headless ∧ r.1.failed = false := by
+  obtain ⟨hO, hA⟩ := open_init c hB hJ
+  obtain ⟨h1, hF, h3⟩ := healthy_aux c hB hJ parts (init c) [] hO hA
+  rw [List.nil_append] at hF
+  exact ⟨h1, hF.data, h3, hF.endOut, hF.hdr, hF.notFailed⟩
+
+theorem getWritten_final (c : Cfg) (hB : 0 < c.B) (hJ : 0 < c.J) (parts : List (List Nat)) :
+    getWritten (run c (init c) (healthyProgram parts)).1 =
+      ((if c.headless then 0 else c.headerBits) +
+        ((chunks c.B parts.flatten).map c.frameBits).sum + 8 + 7) / 8 := by
+  obtain ⟨hO, hA⟩ := open_init c hB hJ
+  obtain ⟨h1, hF, h3⟩ := healthy_aux c hB hJ parts (init c) [] hO hA
+  rw [List.nil_append] at hF
+  unfold getWritten
+  rw [hF.bits, hF.data]
 
 end Kanzi.Writer
